@@ -273,3 +273,62 @@ def r19_filter(cut):
     if n:
         cut.log.append("R19 x%d Option::filter(|c| p) -> match" % n)
     return n
+
+
+def r24_inline_closures(cut):
+    """R24 (generic): a local closure `let NAME = |p1[: T1], ...| BODY;` that captures nothing mutably is removed and every call `NAME(a1, ...)` is replaced by
+    `({ let p1 = a1; ...; BODY })` (definition of calling a closure).  Only closures bound with `let` to a plain identifier and called by that identifier are handled."""
+    from vf.rustcut import mask, match_brace
+    n = 0
+    while True:
+        mk = mask(cut.text)
+        m = re.search(r"\blet\s+(\w+)\s*=\s*\|([^|]*)\|\s*", mk)
+        if not m:
+            break
+        name = m.group(1)
+        params = [re.sub(r":.*$", "", x, flags=re.S).strip() for x in m.group(2).split(",") if x.strip()]
+        b0 = m.end()
+        if mk[b0] == "{":
+            b1 = match_brace(mk, b0, "{", "}")
+            body = cut.text[b0:b1 + 1]
+            end = mk.index(";", b1) + 1
+        else:
+            end = mk.index(";", b0) + 1
+            body = cut.text[b0:end - 1]
+        cut.text = cut.text[:m.start()] + cut.text[end:]
+        # calls
+        k = 0
+        while True:
+            mk = mask(cut.text)
+            c = re.search(r"(?<![\w.])%s\(" % re.escape(name), mk)
+            if not c:
+                break
+            op = c.end() - 1
+            cp = match_brace(mk, op, "(", ")")
+            args = _split_args(cut.text[op + 1:cp])
+            if len(args) != len(params):
+                raise Undecided("%s: closure %s called with %d arguments, declared with %d" % (cut.desc, name, len(args), len(params)))
+            lets = " ".join("let %s = %s;" % (pn, a) for pn, a in zip(params, args))
+            cut.text = cut.text[:c.start()] + "({ %s %s })" % (lets, body) + cut.text[cp + 1:]
+            k += 1
+            if k > 40:
+                raise Undecided("%s: closure %s: too many call sites" % (cut.desc, name))
+        n += 1
+        if n > 8:
+            break
+    if n:
+        cut.log.append("R24 x%d local closure inlined at its call sites (beta-reduction)" % n)
+    return n
+
+
+STR_PREFIX_SHIM = """
+// R15 (generic): s.starts_with("literal") on a String / &str
+pub open spec fn has_prefix(s: Seq<char>, p: Seq<char>) -> bool { s.len() >= p.len() && s.subrange(0, p.len() as int) == p }
+#[verifier::external_body] pub fn string_starts_with(s: &String, p: &str) -> (r: bool) ensures r == has_prefix(s@, p@) { s.starts_with(p) }
+#[verifier::external_body] pub fn string_clone(s: &String) -> (r: String) ensures r@ == s@ { s.clone() }
+"""
+
+
+def r15_starts_with_lit(cut):
+    n = cut.sub(r"\b(\w+(?:\.\w+)*)\.starts_with\((\"[^\"]*\")\)", r"string_starts_with(&*\1, \2)", "R15 starts_with(\"lit\") -> shim", expect=(0, 20))
+    return n
